@@ -126,6 +126,8 @@ def run_scenario(sc, observe="all"):
         config.simulated_strategy_isolation = cfg.get("isolation", True)
         config.raise_errors = cfg.get("raise_errors", False)
         config.async_place_orders = cfg.get("async_place", False)
+        config.simulation_available_prices = cfg.get("available_prices", False)
+        config.simulated = False      # what a fresh process has before FlumineSimulation.run() (the flag is set when the run starts)
         paths = [write_market(tmp, m) for m in sc["markets"]]
         cls = []
         for c in sc["clients"]:
@@ -135,7 +137,16 @@ def run_scenario(sc, observe="all"):
             if c.get("commission") is not None:
                 cl.commission_base = c["commission"]
             cls.append(cl)
-        fw = FlumineSimulation(client=cls[0])
+        if cfg.get("mw_subclass"):
+            # a user-defined subclass of the simulation middleware registered before the first client is added
+            from flumine.markets.middleware import SimulatedMiddleware as _SMW
+            class UserMiddleware(_SMW):
+                pass
+            fw = FlumineSimulation()
+            fw.add_market_middleware(UserMiddleware())
+            fw.add_client(cls[0])
+        else:
+            fw = FlumineSimulation(client=cls[0])
         for cl in cls[1:]:
             fw.add_client(cl)
         names = {}            # scenario order name -> order object
@@ -155,6 +166,22 @@ def run_scenario(sc, observe="all"):
                 names[n] = o
             return n
 
+        pre = {}              # (strategy idx, order name) -> order object built before the run (spec "precreate")
+
+        def build_order(strategy, market_id, mi_, a):
+            _, oid_, sel_, side_, t_, opt_ = a
+            opt_ = opt_ or {}
+            tr_ = Trade(market_id, sel_, opt_.get("hc", 0), strategy, reset_seconds=opt_.get("reset", 0.0), place_reset_seconds=opt_.get("place_reset", 0.0))
+            if t_["t"] == "L":
+                if t_.get("ld") == "LINE_RANGE":
+                    return None
+                ot_ = LimitOrder(price=t_["p"], size=t_["s"], persistence_type=t_.get("pt", "LAPSE"), time_in_force=t_.get("tif"), min_fill_size=t_.get("mf"))
+            elif t_["t"] == "LOC":
+                ot_ = LimitOnCloseOrder(liability=t_["l"], price=t_["p"])
+            else:
+                ot_ = MarketOnCloseOrder(liability=t_["l"])
+            return tr_.create_order(side_, ot_)
+
         class Scripted(BaseStrategy):
             def __init__(self, idx, spec, **kw):
                 super().__init__(**kw)
@@ -162,6 +189,18 @@ def run_scenario(sc, observe="all"):
                 self.spec = spec
                 self.seen = collections.Counter()
                 self.cb_seen = collections.Counter()
+
+            def add(self, flumine=None):
+                # orders built when the strategy is added to the framework, i.e. before the run starts (spec "precreate")
+                if self.spec.get("precreate"):
+                    for (si, mi_, u_), acts_ in script.items():
+                        if si != self.idx:
+                            continue
+                        for a in acts_:
+                            if a[0] == "place" and not (a[5] or {}).get("trade") and (a[5] or {}).get("on") is None:
+                                o_ = build_order(self, sc["markets"][mi_]["id"], mi_, a)
+                                if o_ is not None:
+                                    pre[(self.idx, a[1])] = o_
 
             def _inject(self, cb, market):
                 mi = mindex[market.market_id]
@@ -284,7 +323,7 @@ def run_scenario(sc, observe="all"):
                                 ot = LimitOnCloseOrder(liability=t["l"], price=t["p"])
                             else:
                                 ot = MarketOnCloseOrder(liability=t["l"])
-                            o = tr.create_order(side, ot)
+                            o = pre.pop((self.idx, oid), None) or tr.create_order(side, ot)
                             names[oid] = o; rev[id(o)] = oid
                             tgt = txn if txn is not None else tmk
                             kw = dict(market_version=opt.get("mv"), force=opt.get("force", False))
@@ -293,6 +332,14 @@ def run_scenario(sc, observe="all"):
                             res = tgt.place_order(o, **kw)
                             if res is False:
                                 extra["violation_msg"] = getattr(o, "violation_msg", None)
+                        elif a[0] == "place_again":
+                            # a refused (VIOLATION) new order submitted again: the very same order object
+                            o = names.get(a[1])
+                            if o is None or o.status is None or o.status.value != "Violation":
+                                res = "skipped"
+                            else:
+                                mk_ = fw.markets.markets.get(o.market_id)
+                                res = mk_.place_order(o, client=cls[self.spec.get("client", 0)])
                         elif a[0] in ("cancel", "update", "replace"):
                             o = names.get(a[1])
                             opt = (a[3] if len(a) > 3 else None) or {}
